@@ -51,6 +51,14 @@ EXPLANATION = (
     "influences only the chunk size and the pool-occupancy test. Floating "
     "point summation order and third-party determinism are not decided.")
 
+EXPLANATION += (
+    ' Added after the seeded rounds: a shared random generator is '
+    'treated as an order-sensitive accumulator (a draw inside a loop '
+    'with a labelled visiting order is a labelled value, label suffix '
+    '=>random-stream, not covered by benign-source entries); key order '
+    'of nested dicts and of key sequences inserted by loops is tracked.'
+)
+
 RULE_TEXT = (
     "one obligation per (sink site, set of source labels) finding, per "
     "benign source used, per RNG construction, per merge loop, per worker "
